@@ -70,10 +70,13 @@ def isPoint (c : Char) : Bool := c = '.'
 /-! ### `Rational('<tok>')`: the exact decimal value -/
 
 /-- `[+-]?digits` after the exponent marker -/
-def signedExp : List Char → Option Int
-  | '-' :: r => (digitsValue decVal 10 r 0).map fun n => -(n : Int)
-  | '+' :: r => (digitsValue decVal 10 r 0).map fun n => (n : Int)
-  | r => (digitsValue decVal 10 r 0).map fun n => (n : Int)
+def signedExp (cs : List Char) : Option Int :=
+  match cs with
+  | c :: r =>
+    if c = '-' then (digitsValue decVal 10 r 0).map fun n => -(n : Int)
+    else if c = '+' then (digitsValue decVal 10 r 0).map fun n => (n : Int)
+    else (digitsValue decVal 10 cs 0).map fun n => (n : Int)
+  | [] => none
 
 /-- `fractions.Fraction('<int>.<frac>[eE][+-]<exp>')`: all mantissa digits as one integer, times
     ten to the written exponent minus the number of fraction digits.  The exponent marker is
@@ -88,14 +91,14 @@ def decimalValue (cs : List Char) : Option Rat :=
 
 /-! ### `Integer(<tok>)`: Python's integer literals -/
 
-def intLiteral : List Char → Option Nat
-  | '0' :: 'x' :: r => digitsValue hexVal 16 r 0
-  | '0' :: 'X' :: r => digitsValue hexVal 16 r 0
-  | '0' :: 'o' :: r => digitsValue octVal 8 r 0
-  | '0' :: 'O' :: r => digitsValue octVal 8 r 0
-  | '0' :: 'b' :: r => digitsValue binVal 2 r 0
-  | '0' :: 'B' :: r => digitsValue binVal 2 r 0
-  | cs => digitsValue decVal 10 cs 0
+def intLiteral (cs : List Char) : Option Nat :=
+  match cs with
+  | a :: c :: r =>
+    if a = '0' ∧ (c = 'x' ∨ c = 'X') then digitsValue hexVal 16 r 0
+    else if a = '0' ∧ (c = 'o' ∨ c = 'O') then digitsValue octVal 8 r 0
+    else if a = '0' ∧ (c = 'b' ∨ c = 'B') then digitsValue binVal 2 r 0
+    else digitsValue decVal 10 cs 0
+  | _ => digitsValue decVal 10 cs 0
 
 /-! ### sympy's `auto_number` decision and the value of the token -/
 
@@ -105,15 +108,19 @@ deriving DecidableEq, Repr
 def NumClass.str : NumClass → String
   | .float => "float" | .integer => "integer"
 
+/-- `c in tok` -/
+def hasChar (c : Char) (cs : List Char) : Bool := cs.any (· == c)
+
 /-- `tok.startswith(('0x', '0X'))` -/
-def startsHex : List Char → Bool
-  | '0' :: c :: _ => c = 'x' || c = 'X'
+def startsHex (cs : List Char) : Bool :=
+  match cs with
+  | a :: c :: _ => a == '0' && (c == 'x' || c == 'X')
   | _ => false
 
 /-- sympy `auto_number`: `'.' in tok or (('e' in tok or 'E' in tok) and not tok.startswith(('0x','0X')))`
     → `Float('<tok>')` (which `rationalize` renames `Rational('<tok>')`), else `Integer(<tok>)` -/
 def autoNumberClass (cs : List Char) : NumClass :=
-  if cs.contains '.' || ((cs.contains 'e' || cs.contains 'E') && !startsHex cs) then .float else .integer
+  if hasChar '.' cs || ((hasChar 'e' cs || hasChar 'E' cs) && !startsHex cs) then .float else .integer
 
 /-- the number a NUMBER token contributes to the unit expression -/
 def tokenValue (cs : List Char) : Option Rat :=
@@ -138,9 +145,12 @@ structure ExpPart where
   digits : List (Fin 10)
 deriving Repr
 
-def ExpPart.render (x : ExpPart) : List Char :=
-  (if x.upper then 'E' else 'e') ::
-    ((match x.sign with | none => [] | some false => ['+'] | some true => ['-']) ++ renderDigits x.digits)
+def ExpPart.signChars (x : ExpPart) : List Char :=
+  match x.sign with | none => [] | some false => ['+'] | some true => ['-']
+
+def ExpPart.marker (x : ExpPart) : Char := if x.upper then 'E' else 'e'
+
+def ExpPart.render (x : ExpPart) : List Char := x.marker :: (x.signChars ++ renderDigits x.digits)
 
 def ExpPart.value (x : ExpPart) : Int :=
   match x.sign with
@@ -158,9 +168,11 @@ deriving Repr
 /-- the fraction digits that are written (none without a point) -/
 def DecLit.frac (l : DecLit) : List (Fin 10) := if l.dot then l.fracDs else []
 
-def DecLit.render (l : DecLit) : List Char :=
-  renderDigits l.intDs ++ ((if l.dot then '.' :: renderDigits l.fracDs else []) ++
-    (match l.exp with | none => [] | some x => x.render))
+def DecLit.pointPart (l : DecLit) : List Char := if l.dot then '.' :: renderDigits l.fracDs else []
+
+def DecLit.expPart (l : DecLit) : List Char := match l.exp with | none => [] | some x => x.render
+
+def DecLit.render (l : DecLit) : List Char := renderDigits l.intDs ++ (l.pointPart ++ l.expPart)
 
 def DecLit.expValue (l : DecLit) : Int := match l.exp with | none => 0 | some x => x.value
 
